@@ -42,8 +42,14 @@ C = {
                "unrelated reactor flows", "bounds in evidence"),
  "C11": (None, "save/restore at every cut point and simulated idle time on programs holding sets, nested containers, flow/action/event references: same outgoing events, "
                "shared references stay shared", "bounds in evidence"),
- "C12": (None, "closure predicate (labels, fork/merge, scopes, primitives only; 1.0 offsets in range) on all 210 shipped .co files and enumerated/random programs "
-               "after the real parser/expander", "bounds in evidence"),
+ "C12": ("Colang 1.0 post-passes (heap mode, all inputs): _resolve_gotos turns every goto into a relative jump that lands exactly on the element that was its "
+         "label and every label into a jump to the next element, keeps every offset inside the flow and leaves no goto/label; "
+         "RuntimeV1_0._load_flow_config stores a configuration whose elements are closed whenever the flow it is handed is (dropping the leading `meta` "
+         "element - verified as a block contract and used as a summary - keeps every offset inside the flow)",
+         "closure predicate (labels, fork/merge, scopes, primitives only; 1.0 offsets in range) on all 210 shipped .co files and enumerated/random programs "
+         "after the real parser/expander; what the runtimes store (1.0 loader incl. nested `meta`, 2.x AddFlowsAction)",
+         "_extract_elements (recursive, mutates its input) and the whole Colang 2.x expansion are bounded only; A-META-FIRST: nothing jumps onto a leading "
+         "`meta` element (precondition); element dicts of a flow are pairwise distinct objects (precondition); key-level loop frames by syntactic write-set"),
  "C13": ("format_colang_parsing_error_message raises nothing for an arbitrary exception object and content; the read-and-parse `with` block of "
          "_parse_colang_files_recursively lets only ColangParsingError (or open's OSError) escape whatever parse_colang_file raises",
          "layout invariance (blank lines, trailing whitespace, comments, indentation scaling) and the error path end-to-end on mutated files", 
